@@ -195,10 +195,23 @@ var compTypes = []uint64{8, 8, 8, 8, 1, 2, 3, 32, 50, 52, 54, 56, 58, 252, 253, 
 
 func (g *gen) name(label string, interest bool) Node {
 	n := pick(g.t, []int{0, 1, 1, 2, 2, 3, 4, 8}, label+"#")
+	// names made (mostly) of empty components have the most components per encoded byte: a
+	// decoder that sizes its component slice from the encoded length is tested there
+	// (added after seeded defect C13-r3-1 was caught by the thorough tier only)
+	shape := pick(g.t, []int{0, 0, 0, 0, 0, 0, 1, 2}, label+"shape")
+	if shape != 0 {
+		n = pick(g.t, []int{3, 4, 5, 8, 16, 40}, label+"#e")
+	}
 	out := Node{K: make([]Node, 0, n)}
 	for i := 0; i < n; i++ {
 		typ := pick(g.t, compTypes, "ctyp")
 		l := pick(g.t, []int{0, 1, 1, 1, 2, 3, 3, 8, 8, 31, 32, 252, 253, 300}, "clen")
+		switch shape {
+		case 1:
+			l = 0
+		case 2:
+			l = pick(g.t, []int{0, 0, 0, 1}, "clen-e")
+		}
 		if l >= 253 && !BigComponentsOK() {
 			l = 252
 			g.stats.ClampedComp++
